@@ -54,6 +54,7 @@ class Ctx:
         self.stop = False
         self.returned = None
         self.funcs = set()
+        self.trace = False     # None: not specified (after purge)
 
 
 class Model:
@@ -71,7 +72,7 @@ class Model:
         def cv(c):
             if c is None:
                 return None
-            return (tuple(sorted((k, repr(v)) for k, v in c.vars.items())), c.stop, repr(c.returned), tuple(sorted(c.funcs)), tuple(sorted(c.syms.items())))
+            return (tuple(sorted((k, repr(v)) for k, v in c.vars.items())), c.stop, repr(c.returned), tuple(sorted(c.funcs)), tuple(sorted(c.syms.items())), c.trace)
         return repr((cv(self.ctx[0]), cv(self.ctx[1]), [repr(v) for v in self.vals.values()], self.exe, self.exp, [repr(v) for v in self.lib.values()]))
 
 
@@ -500,6 +501,22 @@ def op_break(c):
     return fn
 
 
+def op_trace(c, arg):
+    """enable / disable / query tracing: the flag reads back, both streams exist; tracing never changes results or printed output"""
+    def fn(m):
+        cx = m.ctx[c]
+        if cx is None:
+            return None
+        if arg != "q":
+            cx.trace = (arg == "1")
+        return ["k.trace %d %s" % (c, arg)], [("trace", getattr(cx, "trace", False))]
+    return fn
+
+
+OPS.append(("trace-on-c0", op_trace(0, "1"), True))
+OPS.append(("trace-off-c0", op_trace(0, "0"), False))
+OPS.append(("trace-query-c0", op_trace(0, "q"), False))
+OPS.append(("version", lambda m: (["k.version"], [("version",)]), False))
 OPS.append(("reset-c0", op_reset(0), True))
 OPS.append(("break-c0", op_break(0), False))
 OPS.append(("reset-c1", op_reset(1), False))
@@ -512,6 +529,7 @@ def op_clone(m):
     n = Ctx()
     n.vars = copy.deepcopy(src.vars)
     n.funcs = set(src.funcs)
+    n.trace = None
     m.ctx[1] = n
     m.clock += 1
     m.clone_at = m.clock
@@ -555,6 +573,7 @@ def op_purge(m):
     cx.funcs = set()
     cx.stop = False
     cx.returned = None
+    cx.trace = None
     # re-create the variables through the API
     ops += ["k.reg 0 0 A 2 0", "k.reg 0 1 B 4 0"]
     cx.vars = {"A": ("N", "i"), "B": ("N", "s")}
@@ -946,6 +965,14 @@ def check(case, res):
                 mm = val_matches(s["val"], e[2])
                 if mm:
                     bad("assign:value", "%s; model %r" % (mm, e[2]), i)
+        elif k == "trace":
+            if e[1] is not None and s.get("trace") != (1 if e[1] else 0):
+                bad("trace:flag", "bloc_ctx_trace returns %s, the host set %s" % (s.get("trace"), e[1]), i)
+            if s.get("out") != 1 or s.get("err") != 1:
+                bad("trace:streams", "bloc_ctx_out / bloc_ctx_err returned NULL: %s" % s, i)
+        elif k == "version":
+            if not s.get("version") or s.get("version") == "(null)" or s.get("version") not in (s.get("header") or "") or not isinstance(s.get("compatible"), int) or s.get("compatible") < 1:
+                bad("version", "version %r, header %r, compatible %r" % (s.get("version"), s.get("header"), s.get("compatible")), i)
         elif k == "pexe-ok":
             if s.get("ptr") != 1:
                 bad("parse:valid-rejected", "valid text rejected: %s %s" % (s.get("errno"), s.get("strerror")), i)
